@@ -6,7 +6,7 @@
    signature term under honest material occurring in l is one of those (Dolev-Yao).  The key tag is
    a free field of every key, so each statement holds for every tag assignment (collisions
    included); [nrank] (Go's string order) and the record order are universally quantified. *)
-From Sdns Require Import Common.Base Gen.C01 C01.Model C01.Proofs_sig C01.Proofs_chain C01.Proofs_f9 C01.Proofs_top C01.Proofs_deleg C01.Proofs_pad C01.Proofs_chase C01.Proofs_zone.
+From Sdns Require Import Common.Base Gen.C01 C01.Model C01.Proofs_sig C01.Proofs_chain C01.Proofs_f9 C01.Proofs_top C01.Proofs_deleg C01.Proofs_pad C01.Proofs_chase C01.Proofs_zone C01.Proofs_descent.
 Open Scope N_scope.
 
 (* VerifyDS: success means a supported DS of the parent's set is the digest of a key of the child's
@@ -369,6 +369,40 @@ Theorem chased_denial_rests_on_its_own_verdict : forall q st fuel qn r,
               (cr_ad r = true -> ce_ad e = true) /\ (ce_ad e = false -> cr_ad r = false).
 Proof. exact chased_denial_rests_on_its_own_verdict_lemma. Qed.
 Print Assumptions chased_denial_rests_on_its_own_verdict.
+
+(* the descent (resolve / processAuthoritySection / processDelegation) and the delegation cache: "DS RRset inherited down
+   the referral path and cached with each delegation".  If every DS set in the delegation cache was handed down — from the
+   root's empty set through referrals validateDelegation accepted, each coherent, strictly below the zone asked and on the
+   path to the name — then after ANY walk over ANY transcript of upstream responses the cache still holds only such sets,
+   and the walk ended in answer()'s / authority()'s verdict over such a set, in a bare upstream rcode without data, or in
+   an error.  (An empty cache is sound: dc_sound_nil; so this covers every history of walks on one resolver.) *)
+Theorem descent_keeps_handed_down_ds : forall E q t cd dc resps,
+  dc_sound E q cd dc ->
+  dc_sound E q cd (dr_cache (resolve_from_cache E q t cd dc resps)) /\
+  final_verdict E q t cd (dr_out (resolve_from_cache E q t cd dc resps)).
+Proof. exact resolve_from_cache_sound_lemma. Qed.
+Print Assumptions descent_keeps_handed_down_ds.
+
+(* AD on the reply of a walk is answer()'s or authority()'s own AD, computed for a zone at or above the name with a DS set
+   handed down to that zone (answer_ad_sound / negative_ad_rests_on_validated_denial say what that AD means) *)
+Theorem descent_ad_rests_on_handed_down_ds : forall E q t cd dc resps m,
+  dc_sound E q cd dc ->
+  dr_out (resolve_from_cache E q t cd dc resps) = Accept m -> m_ad m = true ->
+  exists zone pds resp, handed_down E q cd zone pds /\ in_zone q zone = true /\
+    (validate_answer E q t cd resp pds (Some zone) = Accept m \/
+     validate_negative E q t cd resp pds (Some zone) = Accept m).
+Proof. exact descent_ad_rests_on_handed_down_ds_lemma. Qed.
+Print Assumptions descent_ad_rests_on_handed_down_ds.
+
+(* "a zone is treated as unsigned only on a validated proof": below the root the walk holds an EMPTY DS set for a zone only
+   because validate_delegation returned the empty set for the referral into it, met with the parent's handed-down set
+   (insecure_child_needs_proof says what that return rests on) *)
+Theorem empty_ds_only_from_validate_delegation : forall E q cd zone,
+  handed_down E q cd zone [] -> zone <> [] ->
+  exists parent pds resp, handed_down E q cd parent pds /\ in_zone zone parent = true /\ name_eqb zone parent = false /\
+    validate_delegation E cd resp zone pds (Some parent) = Ok [].
+Proof. exact empty_ds_only_from_validate_delegation_lemma. Qed.
+Print Assumptions empty_ds_only_from_validate_delegation.
 
 (* a validating reader meets only bits filed for CD=0 requests, and they are the resolver's verdict *)
 Theorem filed_for_validating_readers : forall v cd a p1, file_verdict v cd = (Some a, p1) -> cd = false /\ a = v.
